@@ -9,6 +9,7 @@ constructor over an arbitrary linearly ordered field (rounding inside `np.linspa
 the correspondence check, not modelled).
 -/
 import Pyiga.Proofs.BSpline
+import Pyiga.Proofs.KnotsInterleave
 import Pyiga.Props.C02
 
 namespace Pyiga.Props.C19
@@ -428,6 +429,25 @@ theorem refine_uniform_spec (kv : List K) (h : kv.Pairwise (· ≤ ·)) (hne : k
     omega
 
 example : refineUniform ([0, 0, 0, 1, 1, 3, 3, 3] : List ℚ) = [0, 0, 0, 1/2, 1, 1, 2, 3, 3, 3] := by
+  decide +kernel
+
+/-- **uniform refinement halves every span** (stated on the breakpoints themselves, stronger than the
+count in `refine_uniform_spec`): the mesh of the refined knot vector is the old mesh interleaved with
+the span midpoints, `x₀, (x₁+x₀)/2, x₁, (x₂+x₁)/2, …, x_m`. -/
+theorem refine_uniform_mesh (kv : List K) (h : kv.Pairwise (· ≤ ·)) :
+    mesh (refineUniform kv) = interleave (mesh kv) (midpoints (mesh kv)) := by
+  have hs : (refineUniform kv).Pairwise (· ≤ ·) := sortL_sorted _
+  have hp : (refineUniform kv).Perm (kv ++ midpoints (mesh kv)) := sortL_perm _
+  have hmesh := mesh_strictly_increasing kv h
+  have hL := mesh_strictly_increasing (refineUniform kv) hs
+  have hR := (interleave_midpoints_sorted (mesh kv) hmesh).1
+  refine List.Pairwise.eq_of_mem_iff hL hR ?_
+  intro x
+  rw [mem_mesh, hp.mem_iff, List.mem_append, mem_interleave_midpoints, mem_mesh]
+
+example : mesh (refineUniform ([0, 0, 0, 1, 1, 3, 3, 3] : List ℚ)) = [0, 1/2, 1, 2, 3] ∧
+    interleave (mesh ([0, 0, 0, 1, 1, 3, 3, 3] : List ℚ)) (midpoints (mesh ([0, 0, 0, 1, 1, 3, 3, 3] : List ℚ)))
+      = [0, 1/2, 1, 2, 3] := by
   decide +kernel
 
 /-! ## equality -/
